@@ -125,7 +125,7 @@ func lenClass(n int) string {
 }
 
 func runC06(c *Ctx) {
-	c.res.Rule = "Seal(nil, nonce, pt, aad) on every path (fused assembly; crypto/cipher generic mode over the portable cipher) against SP 800-38D over the SM4 specification: every plaintext length 0..L with aad in {0,1,15,16,17,127,128,129,L}, every aad length 0..L with pt in {0,1,16,257}, nonce lengths 1..300, tag sizes 12..16, 16-byte nonces solved so that the initial counter is 2^32-k for k in 0..40 (counter wrap); L = 330 quick / 1100 thorough; class = (path, kernel mix of the plaintext length, aad class, nonce class, tag size); the RFC 8998 A.1 vector runs first"
+	c.res.Rule = "Seal(nil, nonce, pt, aad) on every path (fused assembly; crypto/cipher generic mode over the portable cipher) against the Lean model of the fused algorithm (Model.GCM.seal: J0, lane counters, length classes, Karatsuba/reduction GHASH with 4-way aggregation) and against SP 800-38D over the SM4 specification, three-way on every case: every plaintext length 0..L with aad in {0,1,15,16,17,127,128,129,L}, every aad length 0..L with pt in {0,1,16,257}, nonce lengths 1..300, tag sizes 12..16, 16-byte nonces solved so that the initial counter is 2^32-k for k in 0..40 (counter wrap); L = 330 quick / 1100 thorough; class = (path, kernel mix of the plaintext length, aad class, nonce class, tag size); the RFC 8998 A.1 vector runs first"
 	L := 330
 	if c.tier == "thorough" {
 		L = 1100
@@ -207,7 +207,7 @@ func runC06(c *Ctx) {
 }
 
 func runC07(c *Ctx) {
-	c.res.Rule = "Open(nil, nonce, ct, aad) on every path against SP 800-38D decryption over the SM4 specification: every sealed message of the C06 length classes opens to its plaintext; for each, every single-bit flip of the tag, 64 random + boundary bit flips of ciphertext, aad and nonce, truncation by 1..t+1 bytes, extension by one byte, all strings shorter than the tag, tag sizes 12..16; a forgery that is accepted would be reported; class = (path, mutation kind, length class, tag size, verdict)"
+	c.res.Rule = "Open(nil, nonce, ct, aad) on every path against the Lean model of openAsm and its wrapper (Model.GCM.open) and against SP 800-38D decryption over the SM4 specification, three-way on every case: every sealed message of the C06 length classes opens to its plaintext; for each, every single-bit flip of the tag, 64 random + boundary bit flips of ciphertext, aad and nonce, truncation by 1..t+1 bytes, extension by one byte, all strings shorter than the tag, tag sizes 12..16; a forgery that is accepted would be reported; class = (path, mutation kind, length class, tag size, verdict)"
 	nMsgs := 25
 	if c.tier == "thorough" {
 		nMsgs = 400
